@@ -453,6 +453,7 @@ func (reg *Reg) blobPutUploadChunked(ctx context.Context, r ref.Ref, d descripto
 	chunkURL := *putURL
 	retryLimit := 10 // TODO: pull limit from reghttp
 	retryCur := 0
+	noProgress := 0
 	var err error
 
 	for !finalChunk || chunkStart < bufStart+int64(len(bufBytes)) {
@@ -548,11 +549,18 @@ func (reg *Reg) blobPutUploadChunked(ctx context.Context, r ref.Ref, d descripto
 					retryCur--
 				}
 			}
+			chunkPrev := chunkStart
 			rangeEnd, err := blobUploadCurBytes(httpResp)
 			if err == nil {
 				chunkStart = rangeEnd + 1
 			} else {
 				chunkStart += int64(chunkSize)
+			}
+			// stop resending chunks to a registry that never acknowledges any progress
+			if chunkStart > chunkPrev {
+				noProgress = 0
+			} else if noProgress++; noProgress > retryLimit {
+				return d, fmt.Errorf("failed to send blob (chunk), ref %s: no progress after %d attempts at offset %d%.0w", r.CommonName(), noProgress, chunkPrev, errs.ErrRetryLimitExceeded)
 			}
 			location := httpResp.Header.Get("Location")
 			if location != "" {
